@@ -14,6 +14,19 @@ use spdcalc::math::Integrator;
 use spdcalc::utils::{get_1d_index, get_2d_indices, transpose_vec, Iterator2D, Steps, Steps2D};
 use spdcalc::{Complex, Frequency, Wavelength, SPDC};
 
+static CURRENT: std::sync::Mutex<Option<Value>> = std::sync::Mutex::new(None);
+/// remember the input of the case being evaluated: a panic anywhere in the case is reported with it
+fn set_input(v: Value) {
+  *CURRENT.lock().unwrap() = Some(v);
+}
+fn case<F: FnOnce()>(name: &str, f: F) {
+  if let Err(e) = std::panic::catch_unwind(std::panic::AssertUnwindSafe(f)) {
+    let msg = if let Some(s) = e.downcast_ref::<&str>() { s.to_string() } else if let Some(s) = e.downcast_ref::<String>() { s.clone() } else { "panic".to_string() };
+    let input = CURRENT.lock().unwrap().clone();
+    emit(json!({"kind": "case_panic", "case": name, "message": msg, "input": input}));
+  }
+}
+
 fn hz(x: f64) -> Frequency {
   x * RAD / S
 }
@@ -85,6 +98,7 @@ fn steps_case(rng: &mut Rng, k: usize) {
   let cls = CLASSES[k % CLASSES.len()];
   let (s, e) = endpoints(rng, cls);
   let n = count_for(rng, k / CLASSES.len(), cls);
+  set_input(json!({"call": format!("Steps({:?}, {:?}, {})", s, e, n), "s": fx(s), "e": fx(e), "n": n}));
   let st = Steps(s, e, n);
   let fwd: Vec<f64> = st.into_iter().collect();
   let rev: Vec<f64> = st.into_iter().rev().collect();
@@ -135,6 +149,7 @@ fn steps2d_case(rng: &mut Rng, k: usize, full_limit: usize) {
     6 => (1 + rng.below(300), 300),
     _ => (count_for(rng, 7, clsx), count_for(rng, 7, clsy)),
   };
+  set_input(json!({"call": format!("Steps2D(({:?}, {:?}, {}), ({:?}, {:?}, {}))", x0, x1, nx, y0, y1, ny), "x0": fx(x0), "x1": fx(x1), "nx": nx, "y0": fx(y0), "y1": fx(y1), "ny": ny}));
   let g = Steps2D((x0, x1, nx), (y0, y1, ny));
   let total = nx * ny;
   let it = g.into_iter();
@@ -295,6 +310,7 @@ fn space_case(rng: &mut Rng, k: usize) {
     std::mem::swap(&mut a0, &mut a1);
     std::mem::swap(&mut b0, &mut b1);
   }
+  set_input(json!({"call": format!("WavelengthSpace::new(({:?} m, {:?} m, {}), ({:?} m, {:?} m, {})) and its conversions / iterators", a0, a1, nx, b0, b1, ny)}));
   let ws = WavelengthSpace::new((a0 * M, a1 * M, nx), (b0 * M, b1 * M, ny));
   let fs = ws.as_frequency_space();
   let ws2 = fs.as_wavelength_space();
@@ -530,32 +546,37 @@ pub fn run(args: &[String]) {
   let mut rng = Rng::new(seed);
   if mode == "grid" || mode == "all" {
     for k in 0..(64 * n) {
-      steps_case(&mut rng, k);
+      case("steps", || steps_case(&mut rng, k));
     }
     for k in 0..(20 * n) {
-      steps2d_case(&mut rng, k, 1500);
+      case("steps2d", || steps2d_case(&mut rng, k, 1500));
     }
     // a seed-dependent number of further random ranges
     let extra = rng.below(24);
     for k in 0..extra {
-      steps_case(&mut rng, 4 + 8 * k);
+      case("steps", || steps_case(&mut rng, 4 + 8 * k));
     }
-    array_cases(&mut rng);
+    set_input(json!({"call": "SignalIdlerFrequencyArray / SignalIdlerWavelengthArray iterators, lengths 0..=9"}));
+    case("arrays", || array_cases(&mut rng));
     // magnitudes at which start * (d - i) leaves the binary64 range (outside the guard of the value clauses)
     let big = Steps(1e306, 1.5e306, 300);
     emit(json!({"kind": "steps_overflow", "call": "Steps(1e306, 1.5e306, 300).value(1)", "value": fx(big.value(1)), "finite": big.value(1).is_finite()}));
-    idx_cases(&mut rng, 50 * n);
-    transpose_cases(&mut rng);
+    set_input(json!({"call": "get_2d_indices / get_1d_index tables"}));
+    case("idx", || idx_cases(&mut rng, 50 * n));
+    set_input(json!({"call": "transpose_vec on shapes up to 12x12"}));
+    case("transpose", || transpose_cases(&mut rng));
     for k in 0..(10 * n) {
-      space_case(&mut rng, k);
+      case("space", || space_case(&mut rng, k));
     }
   }
   if mode == "range" || mode == "all" {
     for k in 0..n.max(2) {
-      range_case(&mut rng, k);
+      set_input(json!({"call": format!("range evaluators, case {} (harness c14::range_case)", k)}));
+      case("range", || range_case(&mut rng, k));
     }
     for k in 0..n.max(3) {
-      range_table_case(&mut rng, k);
+      set_input(json!({"call": format!("all range functions vs pointwise, case {} (harness c14::range_table_case)", k)}));
+      case("range_all", || range_table_case(&mut rng, k));
     }
   }
 }
